@@ -338,6 +338,8 @@ async fn policy(a: &[String]) -> Vec<String> {
 
 #[derive(Clone, Copy)]
 enum Preset {
+    /// `with_bind_default`: documented as the wildcard address with dual stack allowed
+    Default,
     Config(IpBindConfig),
     Addr4,
     /// `with_bind_address` with an IPv6 address (dual stack: OS default)
@@ -348,6 +350,7 @@ enum Preset {
 
 fn parse_preset(s: &str) -> Option<Preset> {
     Some(match s {
+        "default" => Preset::Default,
         "local_v4" => Preset::Config(IpBindConfig::LocalV4),
         "local_v6" => Preset::Config(IpBindConfig::LocalV6),
         "local_dual" => Preset::Config(IpBindConfig::LocalDual),
@@ -362,7 +365,8 @@ fn parse_preset(s: &str) -> Option<Preset> {
     })
 }
 
-const PRESETS: [&str; 10] = [
+const PRESETS: [&str; 11] = [
+    "default",
     "local_v4",
     "local_v6",
     "local_dual",
@@ -420,7 +424,7 @@ async fn bind(a: &[String]) -> Vec<String> {
     if fixed && want_port == 0 {
         return fail("no_free_port".into());
     }
-    if fixed && which == "client" && matches!(preset, Preset::Config(_)) {
+    if fixed && which == "client" && matches!(preset, Preset::Config(_) | Preset::Default) {
         return fail("client_presets_have_no_port".into());
     }
     let rt = match TestRt::new(RT) {
@@ -456,6 +460,7 @@ async fn bind(a: &[String]) -> Vec<String> {
                 trap_sync(move || {
                     let b = ServerConfig::builder();
                     let b = match preset {
+                        Preset::Default => b.with_bind_default(want_port),
                         Preset::Config(c) => b.with_bind_config(c, want_port),
                         Preset::Addr4 => b.with_bind_address(v4_loopback(want_port)),
                         Preset::Addr6 => b.with_bind_address(SocketAddr::V6(v6_addr)),
@@ -536,6 +541,7 @@ async fn bind(a: &[String]) -> Vec<String> {
             trap_sync(move || {
                 let b = ClientConfig::builder();
                 let b = match preset {
+                    Preset::Default => b.with_bind_default(),
                     Preset::Config(c) => b.with_bind_config(c),
                     Preset::Addr4 => b.with_bind_address(v4_loopback(want_port)),
                     Preset::Addr6 => b.with_bind_address(SocketAddr::V6(v6_addr)),
